@@ -7,6 +7,7 @@ export S=/tmp/verif_mut_$LANE
 i=0
 for d in seeded/*/; do
   i=$((i+1)); [ $((i % LANES)) -eq $LANE ] || continue
+  [ -f $d/meta.json ] || continue
   id=$(basename $d); prop=$(python3 -c "import json;print(json.load(open('$d/meta.json'))['breaks_property'])")
   echo "######## $id -> $prop"
   ./mutants.sh patch /verif/$d/patch.diff $prop 2>&1 | grep -E "^== |^violation" | head -3 | cut -c1-250
